@@ -347,7 +347,9 @@ def test(
 
 def _grep_text(pattern: patterns.Pattern, text: str, color: bool) -> typ.Iterable[str]:
     all_lines = text.splitlines()
-    for match in pattern.regexp.finditer(text):
+    # NOTE: ^ and $ anchor at the start/end of each line, as they do for 'bumpver update'.
+    regexp = re.compile(pattern.regexp.pattern, flags=re.MULTILINE)
+    for match in regexp.finditer(text):
         match_start, match_end = match.span()
 
         line_idx   = text[:match_start].count("\n")
